@@ -311,7 +311,9 @@ package verifier
 //@ pure func signedTarget(o *notation.VerificationOutcome) ocispec.Descriptor = decPayload(payloadText(o)).TargetArtifact
 
 //@ func (*verifier).Verify
-//@ props C01 C02 C12
+//@ props C01 C02 C03 C04 C08 C12
+//@ at call (*verifier).processSignature: assert[C03.policy-args,C04.policy-args,C08.policy-args] arg3 == trustPolicy.Name && arg4 == trustPolicy.TrustedIdentities && arg5 == trustPolicy.TrustStores && arg6 == trustPolicy.SignatureVerification && arg7 == opts.PluginConfig
+//@ at call (*OCIDocument).GetApplicableTrustPolicy: assert[C08.selection-args] arg0 == opts.ArtifactReference
 //@ requires verifierWF(v) && ociDocOK(v.ociTrustPolicyDoc)
 //@ ensures[C12.outcome-consistent] result1 == nil ==> result != nil && result.Error == nil
 //@ ensures[C12.outcome-consistent] result1 != nil && result != nil ==> result.Error == result1
@@ -328,7 +330,11 @@ package verifier
 //@ global invariant algorithms != nil && has(algorithms, crypto.SHA256) && has(algorithms, crypto.SHA384) && has(algorithms, crypto.SHA512) && forall(h, crypto.Hash, has(algorithms, h) ==> (h == crypto.SHA256 || h == crypto.SHA384 || h == crypto.SHA512) && algorithms[h] == digestOfHash(h))
 
 //@ func (*verifier).VerifyBlob
-//@ props C01 C02 C07 C12
+//@ props C01 C02 C03 C04 C07 C08 C12
+//@ at call (*verifier).processSignature: assert[C03.policy-args,C04.policy-args,C08.policy-args] arg3 == trustPolicy.Name && arg4 == trustPolicy.TrustedIdentities && arg5 == trustPolicy.TrustStores && arg6 == trustPolicy.SignatureVerification && arg7 == opts.PluginConfig
+//@ at call (*BlobDocument).GetApplicableTrustPolicy: assert[C08.selection-args] opts.TrustPolicyName != "" && arg0 == opts.TrustPolicyName
+//@ at call (*BlobDocument).GetGlobalTrustPolicy: assert[C08.selection-args] opts.TrustPolicyName == ""
+//@ ensures-local[C08.blob-selection,C03.blob-selection] result1 == nil ==> (opts.TrustPolicyName != "" ==> trustPolicy.Name == opts.TrustPolicyName) && (opts.TrustPolicyName == "" ==> exists(i, 0, len(v.blobTrustPolicyDoc.TrustPolicies), v.blobTrustPolicyDoc.TrustPolicies[i].GlobalPolicy && copyOfBlob(trustPolicy, v.blobTrustPolicyDoc.TrustPolicies[i])))
 //@ requires verifierWF(v) && blobDocOK(v.blobTrustPolicyDoc) && descGenFunc != nil
 //@ modifies fieldsof(notation.ValidationResult, Error)
 //@ ensures[C12.outcome-consistent] result1 == nil ==> result != nil && result.Error == nil
@@ -345,13 +351,21 @@ package verifier
 // ---- C12: every construction yields a verifier the entry points' preconditions accept ----
 
 //@ func (*verifier).setRevocation
-//@ props C12
+//@ props C12 C05 C06
 //@ requires v != nil
 //@ modifies v.revocationTimestampingValidator, v.revocationCodeSigningValidator, v.revocationClient
 //@ ensures[C12.revocation-set] result == nil ==> v.revocationTimestampingValidator != nil && (v.revocationCodeSigningValidator != nil || v.revocationClient != nil)
+//@ ensures[C05.validator-kept] result == nil && verifierOptions.RevocationCodeSigningValidator != nil ==> v.revocationCodeSigningValidator == verifierOptions.RevocationCodeSigningValidator
+//@ ensures[C05.validator-kept] result == nil && verifierOptions.RevocationCodeSigningValidator == nil && verifierOptions.RevocationClient != nil ==> v.revocationClient == verifierOptions.RevocationClient && v.revocationCodeSigningValidator == old(v.revocationCodeSigningValidator)
+//@ ensures[C06.validator-kept] result == nil && verifierOptions.RevocationTimestampingValidator != nil ==> v.revocationTimestampingValidator == verifierOptions.RevocationTimestampingValidator
 
 //@ func NewVerifierWithOptions
-//@ props C12
+//@ props C12 C05 C06 C09 C03
+//@ ensures[C09.constructor-validates] result1 == nil ==> (verifierOptions.OCITrustPolicy != nil ==> ociWF(verifierOptions.OCITrustPolicy)) && (verifierOptions.BlobTrustPolicy != nil ==> blobWF(verifierOptions.BlobTrustPolicy))
+//@ ensures[C05.validator-kept] result1 == nil && verifierOptions.RevocationCodeSigningValidator != nil ==> result.revocationCodeSigningValidator == verifierOptions.RevocationCodeSigningValidator
+//@ ensures[C05.validator-kept] result1 == nil && verifierOptions.RevocationCodeSigningValidator == nil && verifierOptions.RevocationClient != nil ==> result.revocationClient == verifierOptions.RevocationClient && result.revocationCodeSigningValidator == nil
+//@ ensures[C06.validator-kept] result1 == nil && verifierOptions.RevocationTimestampingValidator != nil ==> result.revocationTimestampingValidator == verifierOptions.RevocationTimestampingValidator
+//@ ensures[C03.store-kept] result1 == nil ==> result.trustStore == trustStore
 //@ ensures[C12.constructed-wf] result1 == nil ==> result != nil && fresh(result) && verifierWF(result) && ociDocOK(result.ociTrustPolicyDoc) && blobDocOK(result.blobTrustPolicyDoc) && (result.ociTrustPolicyDoc != nil || result.blobTrustPolicyDoc != nil)
 //@ ensures[C12.constructed-wf] result1 == nil ==> result.ociTrustPolicyDoc == verifierOptions.OCITrustPolicy && result.blobTrustPolicyDoc == verifierOptions.BlobTrustPolicy && result.pluginManager == verifierOptions.PluginManager
 //@ ensures result1 != nil ==> result == nil
@@ -365,8 +379,9 @@ package verifier
 // ---- C12: thin no-panic contracts (generated by `govc sweep`, then completed by hand where a callee needs more) ----
 
 //@ func New
-//@ props C12
+//@ props C12 C03
 //@ modifies any
+//@ at call NewVerifierWithOptions: assert[C03.options-kept] arg0 == trustStore && arg1.OCITrustPolicy == ociTrustPolicy && arg1.PluginManager == pluginManager
 
 //@ func NewBlobVerifierFromConfig
 //@ props C12
@@ -381,6 +396,7 @@ package verifier
 //@ modifies any
 
 //@ func NewWithOptions
-//@ props C12
+//@ props C12 C05 C06 C03
 //@ modifies any
+//@ at call NewVerifierWithOptions: assert[C05.options-kept,C06.options-kept,C03.options-kept] arg0 == trustStore && arg1.OCITrustPolicy == ociTrustPolicy && arg1.PluginManager == pluginManager && arg1.RevocationClient == opts.RevocationClient && arg1.RevocationCodeSigningValidator == opts.RevocationCodeSigningValidator && arg1.RevocationTimestampingValidator == opts.RevocationTimestampingValidator && arg1.BlobTrustPolicy == opts.BlobTrustPolicy
 
